@@ -10,6 +10,7 @@ package main
 import (
 	"fmt"
 	"os"
+	"runtime"
 	"sort"
 	"time"
 
@@ -21,6 +22,7 @@ func main() {
 		gcsChildMain()
 		return
 	}
+	runtime.LockOSThread() // CPU-time clock of this thread, see cpuNow
 	cfg = vh.ParseFlags("C08")
 	rep = vh.NewReport(cfg)
 	rep.Rule = "three streams per entry point: structured (valid outer layer: valid checksum / valid framing / valid JSON, degenerate inner content), mutation of valid samples, random bytes, plus fixed edge cases and size-doubling probes; " +
@@ -59,7 +61,7 @@ func finish() {
 	rep.Extra["duplicate_cases_dropped"] = cases.Dups
 	rep.Extra["budgets"] = map[string]interface{}{
 		"alloc":            "TotalAlloc delta of one call <= 64 KiB + 4096 * len(input) (+ what the wire deserialiser itself allocated on the same bytes, for NewBlock*/NewTx*)",
-		"time":             fmt.Sprintf("one call <= %v + %v * len(input), minimum of up to three runs", timeBase, timePerByte),
+		"time":             fmt.Sprintf("one call <= %v + %v * len(input) of thread CPU time, minimum of up to three runs", timeBase, timePerByte),
 		"hang":             fmt.Sprintf("watchdog: a call running longer than %v is reported as C08:<entry>:time and the harness stops", hardLimit),
 		"scaling":          fmt.Sprintf("T(2n)/T(n) <= %.1f once T(2n) > %v, and T(2n) <= %v", ratioMax, ratioFloor, scaleCap),
 		"gcs_child_memory": fmt.Sprintf("ulimit -v %d KiB", gcsMemCapKiB),
